@@ -26,7 +26,7 @@ def run(ctx):
         for clause, want, got in probs:
             ctx.violation(f"inverse root {clause}: expected {want}, observed {got} (spectrum class {c['kind']}, scale {c['scale']})",
                           {"kind": "inverse_root_accuracy", "path": c["path"], "dtype": c["dtype"]}, {"case": c})
-    mp.check_solver_records(ctx, rng, 150 if quick else 2000)
+    mp.check_solver_records(ctx, rng, 2000 if quick else 12000)
     ctx.put("accuracy_cases_measured", measured)
     ctx.put("accuracy_cases_skipped_bound_vacuous", skipped)
     ctx.put("distinct_nontrivial", len(classes))
